@@ -52,7 +52,7 @@ def verify(pid, k, outdir="out", tag="m"):
     shutil.copy(demo, os.path.join(wt, "tests", "demo%s.rs" % k))
     cmd = ["cargo", "test", "--offline", "--test", "demo%s" % k] + extra + (["--release"] if release else [])
     rc, o = sh(cmd, wt)
-    res["demo_fails_with_change"] = rc != 0 and ("test result: FAILED" in o or "panicked" in o)
+    res["demo_fails_with_change"] = rc != 0 and ("test result: FAILED" in o or "panicked" in o or "overflowed its stack" in o or "SIGABRT" in o or "SIGSEGV" in o)
     res["demo_output_with_change"] = o[-800:]
     sh(["git", "checkout", "--", "."], wt)
     rc, o = sh(cmd, wt)
